@@ -29,7 +29,7 @@ CHECKS = {
  'C16': dict(engine='E2-evloop', category='model_checking', design='DESIGN.md 4, 9/C16',
    technique='explicit exhaustive enumeration of (task configuration x environment history) executed on the real event loop and the real threadpool_task handlers (wrapped epoll_wait plays arrivals, peer close, timer expiry, re-enable), byte-stream/cursor invariants checked in every callback and at quiescence',
    text='For receive and send tasks over a stream socketpair: all fragmentations of a 6-byte payload, peer close and timeout expiry at every position, every event-flag choice, callback-after-every-read on/off, direct or scheduled first I/O, six buffer windows and six callback policies (continue, stop/destroy at the k-th call, dispatch pause + re-enable). Checked: bytes in the window equal the stream prefix, nothing outside the window is written, transferred counts add up to the cursor movement, cursors stay consistent and inside the buffer, an armed task moves everything that arrived, EOF and ETIMEDOUT are reported once per occurrence, nothing is called back after stop/destroy or while a dispatch task is paused.',
-   note='AF_UNIX stream sockets only; notify / packet-receiver / accept / connect handlers are not driven yet; short writes on the send side are not forced (the 6-byte window is always written at once); one loop thread; time is owned by the harness.'),
+   note='AF_UNIX sockets only; a second harness forces short writes on the send side (24 KiB window, minimal SO_SNDBUF, the peer drains in every sequence of 1500/4096/9000-byte chunks) and drives the datagram packet receiver (all sequences of <=3-4 datagrams of sizes 1,3,8,9 into 8/12-byte buffers, consume or accumulate policy); notify / accept / connect handlers are not driven; one loop thread; time is owned by the harness.'),
  'C14': dict(engine='E4-enum', category='exploration', design='DESIGN.md 6, 9/C14',
    technique='small-scope exhaustive input enumeration of the real encoders/decoders against independent references (bounded exhaustive exploration)',
    text='All values of 8/16-bit integers and the boundary set of wider types, all byte strings up to length 2-3 plus structural alphabets through Base64/hex/XML/URL/CRC, each compared with an independent reference and round-tripped.',
